@@ -1,6 +1,6 @@
 (* C19: the instances, re-checked by computation on the regenerated table. *)
 From Coq Require Import List String Bool.
-From Mamba Require Import Gen.Effects Effects.Skel Effects.Closure Effects.Flow Effects.Chan.
+From Mamba Require Import Gen.Effects Effects.Skel Effects.Closure Effects.Flow Effects.Fields Effects.Chan.
 Import ListNotations.
 Open Scope string_scope.
 
@@ -126,10 +126,8 @@ Definition documented_param_writes : list (string * string) :=
   ; ("search.GraphIterator.Save", "p0")             (* the io.Writer *)
   ; ("search.Load", "p0")                           (* the io.Reader *)
   ; ("tsp.LIB", "p0")                               (* the io.Writer *)
-  (* not real writes: the parameter is rebound to a fresh copy before it is written
-     (x = tmp in Add; neighbourhoods = make(...) when nil in NewSparse); the analysis is
-     flow-insensitive and cannot see that *)
-  ; ("sortints.SortedInts.Add", "p0")
+  (* not a real write: neighbourhoods is rebound to a fresh slice (when nil) before its elements
+     are assigned; the analysis is flow-insensitive for containers of references *)
   ; ("graph.NewSparse", "p1") ].
 
 Definition pair_mem (f r : string) (l : list (string * string)) : bool :=
@@ -177,6 +175,25 @@ Definition query_ok (q : string * list string) : bool :=
   end.
 
 Lemma queries_b : forallb query_ok query_spec = true.
+Proof. vm_compute. reflexivity. Qed.
+
+(* (iv') fields that keep a caller's slice / map / pointer without copying it (Effects/Fields.v):
+   today PatternSearcher.pattern, inducedSubgraph.g and .verts, complement.g, the work stack of
+   ChromaticPolynomial and MultisetCombinationIterator.m.  No function writes through any of
+   them, so values built from the same argument do not interfere through it. *)
+Definition ST : stab := Eval vm_compute in scompute funcs.
+Lemma ST_closed : sclosed funcs ST = true.
+Proof. vm_compute. reflexivity. Qed.
+
+Definition borrowed_fields : list string := Eval vm_compute in biter funcs documented_param_writes 64 ST [].
+Lemma borrowed_closed : bclosed funcs documented_param_writes ST borrowed_fields = true.
+Proof. vm_compute. reflexivity. Qed.
+
+(* borrowed fields that are nevertheless written through, by design (none today) *)
+Definition documented_borrowed_field_writes : list string := [].
+
+Lemma borrowed_not_written_b :
+  fw_ok funcs W (fun tf => negb (mem tf borrowed_fields) || mem tf documented_borrowed_field_writes) = true.
 Proof. vm_compute. reflexivity. Qed.
 
 (* (v) the channel *)
@@ -260,6 +277,14 @@ Proof.
   destruct (lookup funcs q); [|discriminate].
   rewrite forallb_forall in A. apply mem_In. apply A.
   exact (wclosed_sound funcs W W_closed q r H).
+Qed.
+
+(* no function writes through a field that may hold memory owned by a caller of the API *)
+Theorem borrowed_fields_not_written : forall tf,
+  Borrowed funcs documented_param_writes tf -> FieldWritten funcs tf -> In tf documented_borrowed_field_writes.
+Proof.
+  exact (borrowed_not_written funcs documented_param_writes ST borrowed_fields W documented_borrowed_field_writes
+           ST_closed borrowed_closed W_closed borrowed_not_written_b).
 Qed.
 
 Lemma query_spec_no_recv : forallb (fun q => negb (mem "recv" (snd q))) query_spec = true.
